@@ -48,12 +48,13 @@ structure St where
   T : Nat
   now : Nat := 0
   coord : Coord.St := Coord.init 3
+  cevs : List Coord.Ev := []          -- ghost: the coordinator's history (`coord = Coord.run (Coord.init 3) cevs`)
   -- read task
   rVoted : Bool := false
   rDl : Nat
   rBusy : Bool := false
   rRemotes : Nat := 0
-  rAct : Nat := 0
+  rAct : Nat := 0                    -- ghost
   -- write task
   wVoted : Bool := false
   wDl : Nat
@@ -61,13 +62,13 @@ structure St where
   wRemotes : List Nat := []
   links : List (Nat × Nat) := []     -- (lane, remote)
   wSaw : Bool := false
-  wAct : Nat := 0
+  wAct : Nat := 0                    -- ghost
   -- HTTP task
   hVoted : Bool := false
   hDl : Nat
   hBusy : Bool := false
   hFill : Nat := 0
-  hAct : Nat := 0
+  hAct : Nat := 0                    -- ghost
   -- the environment
   attached : List Nat := []          -- remotes that are attached and not detached
   ever : List Nat := []              -- remote ids used so far
@@ -97,13 +98,20 @@ def READ : Nat := 0
 def WRITE : Nat := 1
 def HTTP : Nat := 2
 
-/-- `Voter::vote` of party `i`; `true` = told `Unanimous`. -/
-def voteAs (s : St) (i : Nat) : St × Bool :=
-  ({ s with coord := (Coord.stepAct s.coord i .vote).1 }, (Coord.stepAct s.coord i .vote).2 == .unanimous)
+/-- the atomic steps of one whole `rescind` call of party `i` -/
+def rescindEvs (c : Coord.St) (i : Nat) : List Coord.Ev :=
+  if (Coord.stepAct c i .rescind).2 = .cont then [.act i .rescind, .act i .cas] else [.act i .rescind]
 
-/-- `Voter::rescind` of party `i` (the whole call); `true` = told `Unanimous`. -/
-def rescindAs (s : St) (i : Nat) : St × Bool :=
-  ({ s with coord := (Coord.apiRescind s.coord i).1 }, (Coord.apiRescind s.coord i).2 == .unanimous)
+/-- `Voter::vote` of party `i` -/
+def voteAs (s : St) (i : Nat) : St :=
+  { s with coord := (Coord.stepAct s.coord i .vote).1, cevs := s.cevs ++ [.act i .vote] }
+/-- … was it told `Unanimous`? -/
+def voteTold (s : St) (i : Nat) : Bool := (Coord.stepAct s.coord i .vote).2 == .unanimous
+
+/-- `Voter::rescind` of party `i` (the whole call) -/
+def rescindAs (s : St) (i : Nat) : St :=
+  { s with coord := (Coord.apiRescind s.coord i).1, cevs := s.cevs ++ rescindEvs s.coord i }
+def rescindTold (s : St) (i : Nat) : Bool := (Coord.apiRescind s.coord i).2 == .unanimous
 
 /-- `combined_stop`: the attachment task ends the run as soon as the vote receiver is ready. -/
 def settle (s : St) : St :=
@@ -112,68 +120,89 @@ def settle (s : St) : St :=
     { s with stop := some { kind := .unanimous, time := s.now, ret := !(s.hBusy || s.rBusy), writeSaw := s.wSaw } }
   else s
 
+/-! ### plain state updates (no votes, no timers) -/
+
+def addRemote (s : St) (r : Nat) : St :=
+  { s with attached := r :: s.attached, ever := r :: s.ever, rRemotes := s.rRemotes + 1, wRemotes := r :: s.wRemotes }
+def delAttached (s : St) (r : Nat) : St :=
+  { s with attached := s.attached.filter (fun x => !(x == r)), rRemotes := s.rRemotes - 1 }
+def linked (s : St) (l r : Nat) : Bool := s.links.contains (l, r)
+def addLink (s : St) (l r : Nat) : St := { s with links := if linked s l r then s.links else (l, r) :: s.links }
+def delLink (s : St) (l r : Nat) : St := { s with links := s.links.filter (fun p => !(p == (l, r))) }
+/-- a write to a remote whose channel was dropped fails: `remove_remote` -/
+def dropRemote (s : St) (r : Nat) : St :=
+  { s with wRemotes := s.wRemotes.filter (fun x => !(x == r)), links := s.links.filter (fun p => !(p.2 == r)) }
+/-- the remotes a broadcast on lane `l` is written to and that are gone -/
+def deadTargets (s : St) (l : Nat) : List Nat :=
+  (s.links.filter (fun p => p.1 == l && !(s.attached.contains p.2))).map (·.2)
+def lq (s : St) (l : Nat) : List Frame := if l = 0 then s.lq0 else s.lq1
+def setLq (s : St) (l : Nat) (q : List Frame) : St := if l = 0 then { s with lq0 := q } else { s with lq1 := q }
+def setHFill (s : St) (n : Nat) : St := { s with hFill := n }
+
 /-! ### read task -/
 
-/-- `ReadTaskEvent::Envelope`: `if voted { rescind() … voted = false }`. -/
-def readRescind (s : St) : St :=
+/-- `ReadTaskEvent::Envelope`: `if voted { if rescind() == Unanimous { break } else { voted = false } }`;
+the second component: the task has left its loop. (No timer runs while the envelope is handled; the next one is
+started when the loop comes round — `readRearm` / `readUnblock`, at the same instant or later: `rDl` is set here only
+so that it is never stale.) -/
+def readRescind (s : St) : St × Bool :=
   if s.rVoted then
-    if (rescindAs s READ).2 then (rescindAs s READ).1
-    else { (rescindAs s READ).1 with rVoted := false, rAct := s.now }
-  else { s with rAct := s.now }
+    if rescindTold s READ then (rescindAs s READ, true)
+    else ({ rescindAs s READ with rVoted := false, rAct := s.now, rDl := s.now + s.T }, false)
+  else ({ s with rAct := s.now, rDl := s.now + s.T }, false)
 
 /-- the loop comes round: a fresh `timeout(inactive_timeout, …)` -/
 def readRearm (s : St) : St := { s with rDl := s.now + s.T }
 
+/-- the dispatch of an envelope blocks on the full input of lane `l` (no timer runs meanwhile) -/
+def readBlock (s : St) (l : Nat) : St := { s with rBusy := true, busyLane := l }
+/-- … and gets through: the loop comes round -/
+def readUnblock (s : St) : St := readRearm { s with rBusy := false }
+
 /-- `ReadTaskEvent::Timeout`: `vote()`, `voted = true`. -/
 def fireRead (s : St) : St :=
-  let s1 := { s with now := max s.now s.rDl }
-  { (voteAs s1 READ).1 with rVoted := true, rDl := s1.now + s.T }
+  { voteAs { s with now := max s.now s.rDl } READ with rVoted := true, rDl := max s.now s.rDl + s.T }
 
 /-! ### write task -/
 
 /-- a coordination message or a lane response resets the `Sleep` -/
 def writeReset (s : St) : St := { s with wDl := s.now + s.T }
 
-/-- `ScheduleWrite` / lane response: `if voted { rescind() … enable_timeout(); voted = false }`. -/
+/-- `ScheduleWrite` / lane response: `if voted { if rescind() == Unanimous { break } enable_timeout(); voted = false }`. -/
 def writeRescind (s : St) : St :=
   if s.wVoted then
-    if (rescindAs s WRITE).2 then { (rescindAs s WRITE).1 with wSaw := true }
-    else { (rescindAs s WRITE).1 with wVoted := false, wEnabled := true, wAct := s.now }
+    if rescindTold s WRITE then { rescindAs s WRITE with wSaw := true }
+    else { rescindAs s WRITE with wVoted := false, wEnabled := true, wAct := s.now }
   else { s with wAct := s.now }
 
 /-- `WriteTaskEvent::Timeout`. -/
 def fireWrite (s : St) : St :=
-  let s1 := { s with now := max s.now s.wDl }
   if s.wRemotes.isEmpty then
     -- "Stopping after timeout with no remotes."
-    { s1 with wEnabled := false,
-              stop := some { kind := .noRemotes, time := s1.now, ret := !(s.hBusy || s.rBusy), writeSaw := false } }
+    { s with now := max s.now s.wDl, wEnabled := false,
+             stop := some { kind := .noRemotes, time := max s.now s.wDl, ret := !(s.hBusy || s.rBusy), writeSaw := false } }
   else
-    { (voteAs s1 WRITE).1 with wVoted := true, wEnabled := false, wSaw := (voteAs s1 WRITE).2 }
-
-/-- a write to a remote whose channel was dropped fails: `remove_remote` -/
-def dropRemote (s : St) (r : Nat) : St :=
-  { s with wRemotes := s.wRemotes.filter (fun x => !(x == r)), links := s.links.filter (fun p => !(p.2 == r)) }
-
-/-- the remotes a broadcast on lane `l` is written to and that are gone -/
-def deadTargets (s : St) (l : Nat) : List Nat :=
-  (s.links.filter (fun p => p.1 == l && !(s.attached.contains p.2))).map (·.2)
+    { voteAs { s with now := max s.now s.wDl } WRITE with
+        wVoted := true, wEnabled := false, wSaw := voteTold { s with now := max s.now s.wDl } WRITE }
 
 /-! ### HTTP task -/
 
-def httpRescind (s : St) : St :=
+/-- `HttpTaskEvent::Request`: `if voted { match rescind() { Unanimous => break, UnanimityPending => voted = false } }` -/
+def httpRescind (s : St) : St × Bool :=
   if s.hVoted then
-    if (rescindAs s HTTP).2 then (rescindAs s HTTP).1
-    else { (rescindAs s HTTP).1 with hVoted := false, hAct := s.now }
-  else { s with hAct := s.now }
+    if rescindTold s HTTP then (rescindAs s HTTP, true)
+    else ({ rescindAs s HTTP with hVoted := false, hAct := s.now, hDl := s.now + s.T }, false)
+  else ({ s with hAct := s.now, hDl := s.now + s.T }, false)
 
 def httpRearm (s : St) : St := { s with hDl := s.now + s.T }
+/-- `tx.reserve().await` on a full queue -/
+def httpBlock (s : St) : St := { s with hBusy := true }
+def httpUnblock (s : St) : St := httpRearm { s with hBusy := false }
 
 /-- `HttpTaskEvent::Timeout`: `if !voted { vote(); voted = true }`. -/
 def fireHttp (s : St) : St :=
-  let s1 := { s with now := max s.now s.hDl }
-  if s.hVoted then { s1 with hDl := s1.now + s.T }
-  else { (voteAs s1 HTTP).1 with hVoted := true, hDl := s1.now + s.T }
+  if s.hVoted then { s with now := max s.now s.hDl, hDl := max s.now s.hDl + s.T }
+  else { voteAs { s with now := max s.now s.hDl } HTTP with hVoted := true, hDl := max s.now s.hDl + s.T }
 
 /-! ### the clock -/
 
@@ -197,97 +226,83 @@ def fire (s : St) : Task → St
   | .read => fireRead s
   | .write => fireWrite s
 
+def setNow (s : St) (t : Nat) : St := { s with now := max s.now t }
+
 def advLoop : Nat → Nat → St → St
-  | 0, target, s => { s with now := max s.now target }
+  | 0, target, s => if s.stop.isSome then s else setNow s target
   | fuel + 1, target, s =>
     if s.stop.isSome then s else
     match pick s target with
-    | none => { s with now := max s.now target }
+    | none => setNow s target
     | some t => advLoop fuel target (settle (fire s t))
 
 /-! ### script ops -/
 
-def lq (s : St) (l : Nat) : List Frame := if l = 0 then s.lq0 else s.lq1
-def setLq (s : St) (l : Nat) (q : List Frame) : St := if l = 0 then { s with lq0 := q } else { s with lq1 := q }
-
 /-- the read task writes a frame into the input of lane `l`: it fits if the buffer is empty, else the task blocks -/
 def feed (s : St) (l : Nat) (f : Frame) : St :=
   if (lq s l).isEmpty then readRearm (setLq s l [f])
-  else { setLq s l (lq s l ++ [f]) with rBusy := true, busyLane := l }
+  else readBlock (setLq s l (lq s l ++ [f])) l
 
-def linked (s : St) (l r : Nat) : Bool := s.links.contains (l, r)
+/-- the write task's part of a coordination message that makes it write (`Linked`, `Unlinked`, `laneNotFound`) -/
+def writeAct (s : St) : St := writeRescind (writeReset s)
 
 /-- may remote `r` send an envelope now? (the harness refuses while the read task is blocked) -/
 def canSend (s : St) (r : Nat) : Bool := !s.rBusy && s.attached.contains r
+
+/-- what the read task does with an envelope once its vote is withdrawn -/
+def dispatch (s : St) : Op → St
+  | .link r l => if l < 2 then readRearm (writeAct (addLink s l r)) else readRearm (writeAct s)   -- `UnknownLane`
+  | .unlink r l =>
+    if l < 2 then
+      if linked s l r then readRearm (writeAct (delLink s l r))
+      else readRearm (writeReset s)                              -- "Lane is not linked": nothing is written
+    else readRearm (writeAct s)
+  | .sync r l => if l < 2 then feed s l (.sync r) else readRearm (writeAct s)
+  | .cmd _ l => if l < 2 then feed s l .cmd else readRearm s   -- a command for an unknown lane is dropped
+  | _ => s
+
+def envelope (s : St) (r : Nat) (op : Op) : St × Ack :=
+  if canSend s r then
+    if (readRescind s).2 then ((readRescind s).1, .ok)             -- told `Unanimous`: the task has gone
+    else (dispatch (readRescind s).1 op, .ok)
+  else (s, .skipped)
 
 def step0 (s : St) : Op → St × Ack
   | .attach r =>
     if s.rBusy || s.ever.contains r then (s, .skipped)
     else
       -- `ReadTaskMessage::Remote` (restarts the read timer), `WriteTaskMessage::Remote` (no activity)
-      (readRearm { s with attached := r :: s.attached, ever := r :: s.ever, rRemotes := s.rRemotes + 1,
-                          wRemotes := r :: s.wRemotes }, .ok)
+      (readRearm (addRemote s r), .ok)
   | .detach r =>
     if canSend s r then
-      let s1 := { s with attached := s.attached.filter (fun x => !(x == r)), rRemotes := s.rRemotes - 1 }
       -- `SelectAll` yields `None` only when its last stream ends: `continue`
-      (if s1.rRemotes = 0 then readRearm s1 else s1, .ok)
+      (if (delAttached s r).rRemotes = 0 then readRearm (delAttached s r) else delAttached s r, .ok)
     else (s, .skipped)
-  | .link r l =>
-    if canSend s r then
-      let s1 := readRescind s
-      if l < 2 then
-        (readRearm (writeRescind (writeReset { s1 with links := if linked s1 l r then s1.links else (l, r) :: s1.links })), .ok)
-      else (readRearm (writeRescind (writeReset s1)), .ok)   -- `UnknownLane` → `laneNotFound`
-    else (s, .skipped)
-  | .unlink r l =>
-    if canSend s r then
-      let s1 := readRescind s
-      if l < 2 then
-        if linked s1 l r then
-          (readRearm (writeRescind (writeReset { s1 with links := s1.links.filter (fun p => !(p == (l, r))) })), .ok)
-        else (readRearm (writeReset s1), .ok)              -- "Lane is not linked": nothing is written
-      else (readRearm (writeRescind (writeReset s1)), .ok)
-    else (s, .skipped)
-  | .sync r l =>
-    if canSend s r then
-      let s1 := readRescind s
-      if l < 2 then (feed s1 l (.sync r), .ok)
-      else (readRearm (writeRescind (writeReset s1)), .ok)
-    else (s, .skipped)
-  | .cmd r l =>
-    if canSend s r then
-      let s1 := readRescind s
-      if l < 2 then (feed s1 l .cmd, .ok)
-      else (readRearm s1, .ok)                              -- a command for an unknown lane is dropped
-    else (s, .skipped)
+  | .link r l => envelope s r (.link r l)
+  | .unlink r l => envelope s r (.unlink r l)
+  | .sync r l => envelope s r (.sync r l)
+  | .cmd r l => envelope s r (.cmd r l)
   | .take l =>
     match lq s l with
     | [] => (s, .none)
     | f :: rest =>
-      let s1 := setLq s l rest
-      if s.rBusy && s.busyLane == l then (readRearm { s1 with rBusy := false }, .got f) else (s1, .got f)
-  | .ev l =>
-    let s1 := writeRescind (writeReset s)
-    ((deadTargets s1 l).foldl dropRemote s1, .ok)
+      if s.rBusy && s.busyLane == l then (readUnblock (setLq s l rest), .got f) else (setLq s l rest, .got f)
+  | .ev l => ((deadTargets (writeAct s) l).foldl dropRemote (writeAct s), .ok)
   | .synced l r =>
-    let s1 := writeRescind (writeReset s)
-    if s1.wRemotes.contains r then
-      let s2 := { s1 with links := if linked s1 l r then s1.links else (l, r) :: s1.links }
-      (if s2.attached.contains r then s2 else dropRemote s2 r, .ok)
-    else (s1, .ok)
+    if (writeAct s).wRemotes.contains r then
+      (if (writeAct s).attached.contains r then addLink (writeAct s) l r else dropRemote (addLink (writeAct s) l r) r, .ok)
+    else (writeAct s, .ok)
   | .http known =>
     if s.hBusy then (s, .skipped)
-    else
-      let s1 := httpRescind s
-      if known then
-        if s1.hFill = 0 then (httpRearm { s1 with hFill := 1 }, .ok)
-        else ({ s1 with hBusy := true }, .ok)              -- `tx.reserve().await` on a full queue
-      else (httpRearm s1, .ok)                              -- 404
+    else if (httpRescind s).2 then ((httpRescind s).1, .ok)
+    else if known then
+      if (httpRescind s).1.hFill = 0 then (httpRearm (setHFill (httpRescind s).1 1), .ok)
+      else (httpBlock (httpRescind s).1, .ok)
+    else (httpRearm (httpRescind s).1, .ok)                       -- 404
   | .httpread =>
     if s.hFill = 0 then (s, .none)
-    else if s.hBusy then (httpRearm { s with hBusy := false }, .gotReq)
-    else ({ s with hFill := 0 }, .gotReq)
+    else if s.hBusy then (httpUnblock s, .gotReq)
+    else (setHFill s 0, .gotReq)
   | .adv k => (advLoop (3 * (k + 1) + 3) (s.now + 100 * k) s, .ok)
 
 def step (s : St) (op : Op) : St × Ack :=
